@@ -74,13 +74,19 @@ def case_text(case):
     return t if case['dirty'] else c0
 
 
-G_C0, G_T = b'g1\ng2\ng3\n', b'g1\ng3\n'
+def g_c0(k, e):
+    """content on disk of the k-th additional buffer (e['n'] lines)"""
+    return b''.join(b'g%d line %d\n' % (k, i) for i in range(e['n']))
+
+
+def g_txt(k, e):
+    """its text in the editor: the first line deleted if it is modified"""
+    ls = lines_of(g_c0(k, e))
+    return b''.join(ls[1:] if e['dirty'] else ls)
+
+
 PRE_LINES = {'w t': b'w t', 'w! t': b'w! t', 'rw! t': b'1,2w! t', 'pipe': b'w !cat >/dev/null'}
 PRE_MODEL = {'w t': 'w@other@-', 'w! t': 'w!@other@-', 'rw! t': 'w!@other@0,2', 'pipe': 'pipe@own@-'}
-
-
-def g_text(case):
-    return G_T if case['buf2']['dirty'] else G_C0
 
 
 def script_of(case, retry=False):
@@ -88,13 +94,15 @@ def script_of(case, retry=False):
     sc = []
     if case['own'] == 'newer':
         sc.append(b'!touch f')          # before the edit: `!` refuses to run while the buffer is modified
-    if case.get('buf2'):
-        # a second buffer g: load it, make it newer on disk / modified, come back to f (g becomes bufs[1])
-        sc.append(b'e g')
-        if case['buf2']['state'] == 'newer':
-            sc.append(b'!touch g')
-        if case['buf2']['dirty']:
-            sc.append(b'2d')
+    for k, e in enumerate(case.get('bufs', [])):
+        # additional buffers g0, g1, ...: load, make newer on disk / modify; finally come back to f, so that
+        # bufs[] = f, g(last), ..., g0
+        sc.append(b'e! g%d' % k)
+        if e['state'] == 'newer':
+            sc.append(b'!touch g%d' % k)
+        if e['dirty']:
+            sc.append(b'1d')
+    if case.get('bufs'):
         sc.append(b'e! f')
     if case['own'] == 'absent':
         # the buffer starts empty; give it the text by reading a helper file
@@ -104,7 +112,10 @@ def script_of(case, retry=False):
         sc += edit
     tgt = b' t' if case['tgt'] == 'other' else b''
     cmd = case['cmd']
-    if cmd.startswith('rw'):
+    if cmd == 'wqchain':
+        # :wq refuses to quit while another buffer is modified and switches to it: repeat until the editor is gone
+        line = b'\n'.join([b'wq'] * (2 + len(case.get('bufs', []))))
+    elif cmd.startswith('rw'):
         b, e = case['rng']
         line = b'%d,%dw%s%s' % (b + 1, e, b'!' if cmd.endswith('!') else b'', tgt)
     else:
@@ -138,13 +149,13 @@ def run_case(vi, case, sched, retry=False, timeout=20):
             f.write(b'FOREIGN DATA\n' * 3)
         ts = 0 if case['other'] == 'epoch' else old - 5000
         os.utime(os.path.join(d, 't'), (ts, ts))
-    if case.get('buf2'):
-        with open(os.path.join(d, 'g'), 'wb') as f:
-            f.write(G_C0)
-        os.utime(os.path.join(d, 'g'), (old, old))
+    for k, e in enumerate(case.get('bufs', [])):
+        with open(os.path.join(d, 'g%d' % k), 'wb') as f:
+            f.write(g_c0(k, e))
+        os.utime(os.path.join(d, 'g%d' % k), (old, old))
     log = os.path.join(d, 'shim.log')
     env = {'PATH': '/usr/bin:/bin', 'HOME': d, 'EXINIT': '', 'TERM': 'xterm', 'LINES': '24', 'COLUMNS': '80',
-           'LD_PRELOAD': build_shim(), 'NVSHIM_TARGETS': 'f:t:g', 'NVSHIM_LOG': log,
+           'LD_PRELOAD': build_shim(), 'NVSHIM_TARGETS': 'f:t:g0:g1:g2:g3', 'NVSHIM_LOG': log,
            'NVSHIM_SCHED': ','.join('%d:%s:%d' % s for s in sched)}
     p = subprocess.Popen([vi, '-s', '-e', 'f'], stdin=subprocess.PIPE, stdout=subprocess.PIPE, stderr=subprocess.PIPE, cwd=d, env=env,
                          start_new_session=True)
@@ -168,7 +179,7 @@ def run_case(vi, case, sched, retry=False, timeout=20):
             w = l.split()
             if len(w) >= 4 and w[0] != '-':
                 calls.append({'i': int(w[0]), 'op': w[1], 'n': int(w[2]) if w[1] == 'write' else 0, 'err': 'err' in w[2:-1], 'name': w[-1]})
-    ob = {'rc': rc, 'own': rd('f'), 'other': rd('t'), 'g': rd('g'), 'calls': calls, 'hung': rc is None,
+    ob = {'rc': rc, 'own': rd('f'), 'other': rd('t'), 'gs': [rd('g%d' % k) for k in range(len(case.get('bufs', [])))], 'calls': calls, 'hung': rc is None,
           'crash': rc is None or rc < 0 or rc >= 100}
     shutil.rmtree(d, ignore_errors=True)
     seg = out.split(S1, 1)[1] if S1 in out else b''
@@ -192,7 +203,7 @@ def run_case(vi, case, sched, retry=False, timeout=20):
 def model_request(case, sched_words):
     c0, edit, t = base_text(case['size'])
     text = case_text(case)
-    kv = {'cmd': case['cmd'].replace('rw', 'w'), 'rng': '%d,%d' % tuple(case['rng']) if case['cmd'].startswith('rw') else '-',
+    kv = {'cmd': case['cmd'].replace('rw', 'w').replace('wqchain', 'wq'), 'rng': '%d,%d' % tuple(case['rng']) if case['cmd'].startswith('rw') else '-',
           'tgt': case['tgt'], 'text': vlib.hx(text), 'dirty': '1' if case['dirty'] else '0',
           'own': 'absent' if case['own'] == 'absent' else vlib.hx(c0), 'ownm': '102' if case['own'] == 'newer' else '100',
           'rec': '-1' if case['own'] == 'absent' else '100',
@@ -200,9 +211,13 @@ def model_request(case, sched_words):
           'sched': ','.join(sched_words) if sched_words else '-'}
     if case.get('pre'):
         kv['pre'] = ';'.join(PRE_MODEL[pc] for pc in case['pre'])
-    if case.get('buf2'):
-        kv.update({'gtext': vlib.hx(g_text(case)), 'gdirty': '1' if case['buf2']['dirty'] else '0', 'g': vlib.hx(G_C0),
-                   'gm': '102' if case['buf2']['state'] == 'newer' else '100', 'grec': '100'})
+    if case.get('bufs'):
+        # bufs[1..] in the editor's order: the buffer loaded last comes first
+        order = list(enumerate(case['bufs']))[::-1]
+        kv['nb'] = str(len(order))
+        for i, (k, e) in enumerate(order):
+            kv.update({'b%dtext' % i: vlib.hx(g_txt(k, e)), 'b%ddirty' % i: '1' if e['dirty'] else '0', 'b%dfile' % i: vlib.hx(g_c0(k, e)),
+                       'b%dm' % i: '102' if e['state'] == 'newer' else '100', 'b%drec' % i: '100'})
     return 'sv ' + ' '.join('%s=%s' % kv_ for kv_ in kv.items())
 
 
@@ -246,14 +261,23 @@ def base_cases():
                 for other, pre in (('absent', ['w t']), ('absent', ['pipe']), ('exists', ['rw! t']), ('exists', ['w t']),
                                    ('absent', ['w t', 'pipe', 'w! t']), ('epoch', ['w! t', 'rw! t'])):
                     out.append({'size': size, 'cmd': cmd, 'dirty': True, 'tgt': 'own', 'own': own, 'other': other, 'pre': pre})
-    # two buffers: wq / x / xa with a second buffer that is modified or not, newer on disk or not
+    # 2..5 buffers of clearly different line counts (1, 3, 40, 700), modified in the background or not, newer on disk or
+    # not, written by xa / xa! / wq / wq! / x from f, and by a chain of :wq (each one switches to the next modified buffer)
+    D, C = True, False
+    specs = [[(3, D, 'unchanged')], [(3, C, 'newer')], [(3, D, 'newer')], [(1, C, 'unchanged')],
+             [(1, D, 'unchanged'), (700, D, 'unchanged')], [(700, C, 'unchanged'), (40, D, 'unchanged')],
+             [(40, D, 'unchanged'), (3, C, 'unchanged'), (1, D, 'unchanged')],
+             [(700, D, 'unchanged'), (40, D, 'newer'), (3, D, 'unchanged'), (1, C, 'unchanged')]]
+    mk = lambda sp: [{'n': n, 'dirty': d, 'state': st} for n, d, st in sp]
     for size in ('one', 'multi'):
         for cmd in ('xa', 'xa!', 'wq', 'wq!', 'x'):
             for own, dirty in (('unchanged', True), ('newer', True), ('unchanged', False)):
-                for gd in (True, False):
-                    for gs in ('unchanged', 'newer'):
-                        out.append({'size': size, 'cmd': cmd, 'dirty': dirty, 'tgt': 'own', 'own': own, 'other': 'absent',
-                                    'buf2': {'dirty': gd, 'state': gs}})
+                for sp in specs:
+                    out.append({'size': size, 'cmd': cmd, 'dirty': dirty, 'tgt': 'own', 'own': own, 'other': 'absent', 'bufs': mk(sp)})
+        for dirty in (True, False):
+            for sp in specs:
+                if all(st == 'unchanged' for _, _, st in sp):
+                    out.append({'size': size, 'cmd': 'wqchain', 'dirty': dirty, 'tgt': 'own', 'own': 'unchanged', 'other': 'absent', 'bufs': mk(sp)})
     return out
 
 
@@ -301,17 +325,26 @@ def oracle(case, sched, ob, ob_retry):
     final_calls = [c for c in ob['calls'] if not (case.get('pre') and c['name'] == 't')]
     injected_err = any(c['err'] for c in final_calls)
     tname = 'f' if case['tgt'] == 'own' else 't'
-    buf2 = case.get('buf2')
-    if buf2 and buf2['state'] == 'newer' and not force:
-        if ob['g'] != G_C0 or any(c['name'] == 'g' for c in ob['calls']):
-            bad.append('a save without ! replaced (or opened) the file of the second buffer although it is newer than when it was read')
-        if 'a' in case['cmd'] and ob['quit_by_cmd']:
-            bad.append('xa quit although the save of the second buffer had to be refused (file newer on disk)')
-    if buf2 and 'a' in case['cmd'] and ob['quit_by_cmd'] and ob['g'] != g_text(case):
-        bad.append('xa quit but the file of the second buffer does not hold its text')
-    # (a command with ! is an explicit request to give up other modified buffers)
-    if buf2 and buf2['dirty'] and not force and (ob['quit_by_cmd'] or not ob['alive']) and ob['g'] != G_T:
-        bad.append('the editor quit (or a following :q was accepted) although the modified second buffer is not in its file')
+    buf2 = case.get('bufs')
+    for k, e in enumerate(case.get('bufs', [])):
+        gf, c0k, txt = ob['gs'][k], g_c0(k, e), g_txt(k, e)
+        if e['state'] == 'newer' and not force:
+            if gf != c0k or any(c['name'] == 'g%d' % k for c in ob['calls']):
+                bad.append('a save without ! replaced (or opened) the file of background buffer g%d although it is newer than when it was read' % k)
+            if 'a' in case['cmd'] and ob['quit_by_cmd']:
+                bad.append('xa quit although the save of background buffer g%d had to be refused (file newer on disk)' % k)
+        if case['cmd'] in ('xa', 'xa!') and ob['quit_by_cmd'] and gf != txt:
+            bad.append('xa quit but the file of background buffer g%d (%d lines) does not hold exactly its text: %s bytes instead of %d' % (
+                k, e['n'], None if gf is None else len(gf), len(txt)))
+        # (a command with ! is an explicit request to give up other modified buffers)
+        if e['dirty'] and not force and (ob['quit_by_cmd'] or not ob['alive']) and gf != txt:
+            bad.append('the editor quit (or a following :q was accepted) although the modified background buffer g%d is not in its file' % k)
+    if case['cmd'] == 'wqchain':
+        if not ob['quit_by_cmd']:
+            bad.append('repeated :wq did not end the session')
+        if ob['own'] != text:
+            bad.append('after the :wq chain the edited file does not hold the buffer text')
+        return bad
     if protected and wrote_cmd:
         if tgt_after != tgt_before:
             bad.append('a write without ! replaced a file that %s' % ('exists and is not the edited file' if case['tgt'] == 'other' else 'is newer than when it was read'))
@@ -349,6 +382,14 @@ def compare(case, ob, mline):
     """model vs editor on the observables the property names"""
     m = dict(p.split('=', 1) for p in mline.split(' '))
     diffs = []
+    if case['cmd'] == 'wqchain':
+        return diffs            # a sequence of commands: judged by the oracle only
+    if case.get('bufs'):
+        mg = m['gs'].split(';')[::-1]       # the driver lists bufs[1..]: last loaded first
+        for k, gf in enumerate(ob['gs']):
+            mv = None if mg[k] == 'absent' else vlib.unhx(mg[k])
+            if mv != gf:
+                diffs.append('g%d file: model %s bytes, editor %s bytes' % (k, None if mv is None else len(mv), None if gf is None else len(gf)))
     mq = m['q'] == '1'
     if mq != ob['quit_by_cmd']:
         diffs.append('quit: model %s editor %s' % (mq, ob['quit_by_cmd']))
@@ -360,7 +401,7 @@ def compare(case, ob, mline):
             diffs.append('message class: model %s editor %s (%r)' % (mst, cls, ob['msg']))
         if (m['dirty'] == '1') != ob['alive']:
             diffs.append('following :q refused: model %s editor %s' % (m['dirty'] == '1', ob['alive']))
-    for k in ('own', 'other') + (('g',) if case.get('buf2') else ()):
+    for k in ('own', 'other'):
         mv = None if m[k] == 'absent' else vlib.unhx(m[k])
         if mv != ob[k]:
             diffs.append('%s file: model %s bytes, editor %s bytes' % (k, None if mv is None else len(mv), None if ob[k] is None else len(ob[k])))
@@ -396,7 +437,9 @@ def run(ctx):
         for c, ob in zip(bases, dry):
             work.append((c, []))
             one_f, multi_f = faults_for(ob['calls'])
-            hk = 'history' if c.get('pre') else 'two buffers' if c.get('buf2') else 'single'
+            hk = 'history' if c.get('pre') else 'several buffers' if c.get('bufs') else 'single'
+            if c['cmd'] == 'wqchain':
+                continue
             for f in one_f:
                 strata.setdefault((c['cmd'], hk, 1), []).append((c, f))
             for f in multi_f:
@@ -427,7 +470,7 @@ def run(ctx):
             ob = run_case(vi, case, sched, timeout=60)
         ob_r = None
         # the forced retry is meaningful after a transient error only (one error in the schedule), single buffer
-        if any(c['err'] for c in ob['calls']) and not ob['crash'] and not case.get('buf2') and sum(1 for f in sched if f[1] == 'err') <= 1:
+        if any(c['err'] for c in ob['calls']) and not ob['crash'] and not case.get('bufs') and sum(1 for f in sched if f[1] == 'err') <= 1:
             ob_r = run_case(vi, case, sched, retry=True)
         return ob, ob_r
     obs = vlib.pmap(one, work)
@@ -449,8 +492,8 @@ def run(ctx):
         res.count('target %s/%s' % (case['tgt'], case['own'] if case['tgt'] == 'own' else case['other']))
         if case.get('pre'):
             res.count('history: ' + ' / '.join(case['pre']))
-        if case.get('buf2'):
-            res.count('second buffer %s, %s' % ('modified' if case['buf2']['dirty'] else 'clean', case['buf2']['state']))
+        if case.get('bufs'):
+            res.count('background buffers with %s lines' % '/'.join(str(e['n']) for e in case['bufs']))
         if len(sched) == 1:
             k = sched[0]
             res.count('fault ' + (('err %d' % k[2]) if k[1] == 'err' else ('short ' + ('1' if k[2] == 1 else 'n-1'))))
